@@ -1365,6 +1365,7 @@ pub fn checks() -> Vec<Check> {
             Scenario { name: "halves-scarce-ports", weight: 4, max_polls: 600_000, max_virtual_secs: 48 * 3600, run: sc_scarce },
             Scenario { name: "halves-link-cut", weight: 2, max_polls: 600_000, max_virtual_secs: 48 * 3600, run: sc_cut },
             Scenario { name: "halves-tunnel-tight-ports", weight: 1, max_polls: 600_000, max_virtual_secs: 48 * 3600, run: sc_tight_tunnel },
+            Scenario { name: "half-resent-after-failed-send", weight: 2, max_polls: 600_000, max_virtual_secs: 48 * 3600, run: super::c05b::sc_retry },
         ],
         quick: (30_000, 50),
         thorough: (1_000_000, 600),
@@ -1390,6 +1391,10 @@ distinct = distinct (plan hash, poll-order hash) pairs",
             "carrier_over_mpsc_channel",
             "carrier_lost_at_receiver",
             "carrier_through_tunnel",
+            "failed_send_max_item_size",
+            "failed_send_serialize_error",
+            "failed_send_ports_exhausted",
+            "retry_channel_ok",
         ],
         real_components: "remoc::rch::{base, mpsc, oneshot, watch, broadcast, bin, lr} incl. streamed (de)serialisation, chmux incl. port forwarding, Connect::framed, default codec",
         stub_components: STUB_NET,
